@@ -9,6 +9,8 @@ import ConfModel.Spec.RawSeq
 import ConfModel.Model.RawRetry
 import ConfModel.Model.RawStack
 import ConfModel.Spec.RawStack
+import ConfModel.Model.RawRace
+import ConfModel.Spec.RawRace
 namespace ConfModel.Driver.C17
 open Lean ConfModel.Driver ConfModel.RawBody ConfModel.RawBodySpec
 
@@ -524,6 +526,24 @@ def handle : Handler := fun op inp impl =>
       model := toJson (m.map fun s => Json.mkObj [("raw", s.raw), ("status", s.status), ("body", hex s.body), ("headers", toJson s.headers)]),
       why := if holds then "" else
         s!"exchange #{firstBad (judge.map (·.2)) + 1} of the sequence does not show what its own response definition prescribes (status, given headers and trailers, no foreign header, body)" }
+  | "rawrace" =>
+    -- two goroutines on one rawResponseWriter: both pure outcomes are admissible in any proportion
+    -- (raw_xor_normal_concurrent); the verdict depends on `mixed == 0` only
+    let rounds := nat (field inp "rounds")
+    let nRaw := nat (field impl "allRaw")
+    let nNormal := nat (field impl "allNormal")
+    let mixed := nat (field impl "mixed")
+    let holds := ConfModel.RawRaceSpec.countsHold rounds nRaw nNormal mixed
+    let hs := (arr (field inp "handler")).map parseOp
+    let r : Raw := ⟨nat (field inp "status"), unhex (str (field inp "body"))⟩
+    -- the model's two outcomes: the raw goroutine first, the handler first
+    let rawFirst := wireStr (finish (ConfModel.RawRace.mrun {} ((Op.setRaw r :: hs).map .op)).1.s)
+    let normalFirst := wireStr (finish (ConfModel.RawRace.mrun {} ((hs ++ [Op.setRaw r]).map .op)).1.s)
+    { agree := holds, holds := holds, nontrivial := nRaw > 0 && nNormal > 0,
+      cls := match hs with | .write _ :: _ => "Write" | .writeHeader _ :: _ => "WriteHeader" | .flush :: _ => "Flush" | _ => "other",
+      model := Json.mkObj [("allRaw", toJson rawFirst), ("allNormal", toJson normalFirst)],
+      why := if holds then "" else
+        s!"{mixed} of {rounds} rounds MIXED (first: round {nat (field impl "firstRound")}, setRawResponse {str (field impl "firstResult")}, wire {strList (field impl "firstWire")}, headers {strList (field impl "firstHeaders")}): with the handler starting the normal response while another goroutine records a raw response, the wire is neither exactly the handler's output nor exactly the raw response" }
   | _ => bad ("C17: unknown op " ++ op)
 
 end ConfModel.Driver.C17
